@@ -147,6 +147,33 @@ def run(ctx):
         inputs.append(("valid", v))
         if rng.random() < 0.5:
             inputs.append(("valid-container", wrap_container(rng, v)))
+    # frames with patch dictionaries whose coordinates / sizes / slots are hostile (the entropy-coded
+    # dictionary itself is well formed: written by the Lean encoder)
+    from props import c05
+    import seqlib
+    big = [0, 1, 7, 255, 256, 65535, 2 ** 31 - 2, 2 ** 31 - 1, 2 ** 31, 2 ** 32 - 2]
+    hp = []
+    for _ in range(40 if q else 600):
+        img, frs, _tags = c05.gen_patch_image(rng, hostile=rng.random() < 0.3)
+        for fr_ in frs:
+            for p in fr_.get("patches", []):
+                k = rng.randrange(9)
+                if k == 0: p["x0"] = rng.choice(big)
+                elif k == 1: p["y0"] = rng.choice(big)
+                elif k == 2: p["w"] = rng.choice(big) + 1
+                elif k == 3: p["h"] = rng.choice(big) + 1
+                elif k == 4: p["ref"] = rng.choice([0, 1, 2, 3])
+                elif k == 5: p["targets"][0]["x"] = rng.choice(big)
+                elif k == 6:
+                    for t in p["targets"][1:]:
+                        t["x"] = rng.choice([-2 ** 31 + 5, -70000, 2 ** 31 - 1, -1]); t["y"] = rng.choice([-2 ** 30, 2 ** 30, -5])
+                elif k == 7:
+                    p["x0"] = rng.choice(big); p["w"] = rng.choice(big) + 1; p["targets"][0]["y"] = rng.choice(big)
+        hp.append(seqlib.plan_line(img, frs))
+    for e in (run_lines_robust([MODEL_EXE, "enc"], hp, per_line_timeout=60) if ok else []):
+        r = pl.parse_enc_output(e) if e and e.startswith("ok") else None
+        if r:
+            inputs.append(("hostile-patches", bytes.fromhex(r[0])))
     import feedlib as fl
     for _label, data, _jpeg in fl.synth_vardct(ctx, 6 if q else 60):
         inputs.append(("valid-vardct", data))       # VarDCT frame + jbrd box: bases for mutation too
@@ -180,6 +207,8 @@ def run(ctx):
             meta.append(("corpus-case", data, c["script"]))
     for label, data in inputs:
         script = gen_script(rng, len(data))
+        if label == "hostile-patches":
+            script = rng.choice(["W,RA,RA", "W,R0,M,RA", "F0,RA,P0:0:3:3,RA"])
         lines.append(f"run {hex_or_dash(data)} {script} {ALLOC_LIMIT}")
         meta.append((label, data, script))
     # low allocation limits with repeated calls: an error (out of memory in decoding, blending, ...)
